@@ -45,7 +45,7 @@ class C13(Prop):
         tol = rng.choice(TOLS)
         P = Fr(period) * U[punit] / U[unit]
         n = rng.choice([1, 2, 3, 5, 8, 13, 21, 50]) if rng.random() < 0.6 else rng.randint(1, 50)
-        t = Fr(rng.choice([0, 0, 0, 3, 16])) * P
+        t = Fr(rng.choice([0, 0, 0, 3, 16, -3, -20, -1])) * P        # (recordings relative to a trigger start below 0)
         stamps = [t]
         for _ in range(n - 1):
             r = rng.random()
